@@ -244,6 +244,19 @@ def run(ck: Check) -> int:
         for f in found:
             ck.report(f, None)
     ck.search('scandir-through-links', s_search)
+
+    def s_hist(sr):
+        import types
+        import k9_cache as K9
+        sr.note = ('"globmatch with REALPATH applies the same rule to the path it is given": the rule is applied to the tree as it is '
+                   'at the call — two roots with the same relative names (directory vs link), a directory replaced by a link and back, '
+                   'root given by root_dir / cwd / dir_fd (fd numbers are reused), single globmatch calls, globfilter, a reused compiled '
+                   'matcher and glob, each answer vs the same call alone in a fresh interpreter (added after seeded change C06e: the '
+                   'symlink lookup table of _Match.match survived from one call to the next)')
+        sr.evaluations = K9.fs_change_histories(types.SimpleNamespace(G=G), lambda what, inp, exp, obs: ck.report(
+            Failing(what, inp, exp, obs, site='wcmatch/_wcmatch.py:_Match.match (symlink lookups are per call)'), None))
+        sr.distinct = sr.evaluations
+    ck.search('symlink-rule-after-tree-change', s_hist)
     if drv:
         drv.close()
     return ck.finish(assumptions=[
